@@ -367,4 +367,72 @@ Section Stmts.
     rewrite (assert_eol_nl s3 r e A4).
     eexists. split; [reflexivity|]. apply apnl_nl; auto.
   Qed.
+
+  (* marking a variable as read does not change the names in scope *)
+  Lemma names_mark_in n l : map v_name (mark_in n l) = map v_name l.
+  Proof. induction l as [|v r IH]; [reflexivity|]. cbn [mark_in]. destruct (str_eqb (v_name v) n); cbn [map v_name]; [reflexivity | rewrite IH; reflexivity]. Qed.
+
+  Lemma visible_mark n l : visible (mark_scopes n l) = visible l.
+  Proof.
+    induction l as [|sc r IH]; [reflexivity|]. cbn [mark_scopes]. destruct (has_var n (sc_vars sc)).
+    - unfold visible. cbn [flat_map sc_vars]. rewrite names_mark_in. reflexivity.
+    - unfold visible in *. cbn [flat_map]. rewrite IH. reflexivity.
+  Qed.
+
+  Lemma env_of_mark n s : env_of B (mark n s) = env_of B s.
+  Proof. unfold env_of, mark. cbn [with_scs scs fns]. rewrite visible_mark. reflexivity. Qed.
+
+  Lemma with_cs_id s : with_cs s (cs s) = s.
+  Proof. destruct s; reflexivity. Qed.
+
+  Lemma passert_ok t s : ct s = t -> passert t s = (true, s).
+  Proof.
+    intro H. unfold passert, assert_token. unfold ct in H. rewrite H.
+    assert (Hb : toktype_beq t t = true) by (apply toktype_beq_eq; reflexivity). rewrite Hb. rewrite with_cs_id. reflexivity.
+  Qed.
+
+  (* x = v   (the target is a variable; index and dot targets are not covered) *)
+  Theorem assign_var_roundtrip lvl s x v r e :
+    ident_text x = true -> is_func x s = false -> scope_get x s = true -> top_ok (env_of B s) v ->
+    at_toks s (toks_of_pieces (fmt_stmt fx lvl (FmtAst.SAssign (FVar x) v [])) ++ mk T_NL :: r) e ->
+    is_ws (look0 (skip1 r)) = false ->
+    exists s', parse_assign_stmt B s = Ok (Some (Parser.SAssign (TVar x) (fexpr_tree v))) s' /\ at_toks s' (skip1 r) e.
+  Proof.
+    intros Hx Hnf Hsg Hv Hat Hn.
+    cbn [fmt_stmt fmt_expr] in Hat. unfold write_comment in Hat. cbn [is_empty app] in Hat. rewrite app_nil_r in Hat.
+    change (T x :: Sp :: T k_assign :: Sp :: fmt_expr fx lvl v) with ([T x; Sp; T k_assign; Sp] ++ fmt_expr fx lvl v) in Hat.
+    rewrite toks_app in Hat. cbn [toks_of_pieces flat_map tok_of_piece app] in Hat. rewrite (ident_text_spec x Hx) in Hat.
+    change (tok_of_text k_assign) with (mk T_ASSIGN) in Hat.
+    set (vt := toks_of_pieces (fmt_expr fx lvl v)) in *.
+    assert (Hvhead : exists t0 ts, vt = t0 :: ts /\ is_ws t0 = false).
+    { unfold vt. destruct Hv as [Hit|(n & args & -> & Hn' & _)].
+      - destruct (item_rt (env_of B s) (env_no_tyerr s) eq_refl fx false lvl v Hit) as [_ Hhd].
+        destruct (toks_of_pieces (fmt_expr fx lvl v)) as [|t0 ts]; [contradiction|]. exists t0, ts. split; [reflexivity|].
+        cbn [head_ok] in Hhd. unfold is_ws. destruct (ttype t0); try contradiction; reflexivity.
+      - rewrite (toks_call fx lvl n args Hn'). eexists; eexists. split; reflexivity. }
+    destruct Hvhead as (t0 & ts & Hvt & Ht0).
+    assert (Hat0 := Hat). destruct Hat as (Hr & Hw & He).
+    unfold parse_assign_stmt. unfold cur. rewrite Hr. cbn [look0 hd tlit ident_tok]. rewrite Hnf.
+    unfold parse_assign_target. unfold cur. rewrite Hr. cbn [look0 hd tlit ident_tok].
+    assert (Hus : str_eqb x (s_ "_"%string) = false).
+    { unfold scope_get in Hsg. apply andb_true_iff in Hsg as [H _]. apply negb_true_iff in H. exact H. }
+    rewrite Hus. change (scope_get x (adv s)) with (scope_get x s). rewrite Hsg. cbn [negb].
+    assert (A1 : at_toks (adv s) (mk T_ASSIGN :: mk T_WS :: vt ++ mk T_NL :: r) e).
+    { apply (adv_at s (ident_tok x) (mk T_WS :: mk T_ASSIGN :: mk T_WS :: vt ++ mk T_NL :: r) e Hat0). reflexivity. }
+    assert (A1m : at_toks (mark x (adv s)) (mk T_ASSIGN :: mk T_WS :: vt ++ mk T_NL :: r) e) by exact A1.
+    (* the target loop stops at "=" *)
+    assert (Hct : ct (mark x (adv s)) = T_ASSIGN).
+    { destruct A1m as (R1 & _). unfold ct, cur_t, cur. rewrite R1. reflexivity. }
+    cbn [assign_target_loop]. rewrite Hct.
+    assert (Pa : passert T_ASSIGN (mark x (adv s)) = (true, mark x (adv s))).
+    { apply passert_ok, Hct. }
+    rewrite Pa. cbn [snd].
+    assert (A2 : at_toks (adv (mark x (adv s))) (vt ++ mk T_NL :: r) e).
+    { apply (adv_at (mark x (adv s)) (mk T_ASSIGN) (mk T_WS :: vt ++ mk T_NL :: r) e A1m). cbn [skip1 is_ws ttype mk]. rewrite Hvt. exact Ht0. }
+    assert (Hv' : top_ok (env_of B (adv (mark x (adv s)))) v).
+    { change (env_of B (adv (mark x (adv s)))) with (env_of B (mark x (adv s))). rewrite env_of_mark. exact Hv. }
+    destruct (p_toplevel_value lvl (adv (mark x (adv s))) v r e Hv' A2) as (s2 & P & A3 & _ & _). rewrite P.
+    unfold tyerr_s. rewrite BT. rewrite (assert_eol_nl s2 r e A3).
+    eexists. split; [reflexivity|]. apply apnl_nl; auto.
+  Qed.
 End Stmts.
